@@ -21,6 +21,8 @@ CHECKS = {
  "C05": (True, "exploration", "6 adaptive solvers x 13 problems (incl. rest and relaxation) x tolerances x step caps x horizons; the harness-owned derivative closure counts calls and enforces a budget of 4x the bound W (T L (|y'|/tol)^(1/p) + T/dtmax + 64), W = 400, so a non-terminating or thousand-fold over-working solve is reported, not waited for.", "W = 400 (observed worst about 15); one-sided", E1, "3/C05", "E1"),
  "C06": (True, "model_checking", "(a) for each of the 7 builders every sequence of up to 5 (quick) / 6 (thorough) calls from a 20-letter alphabet of valid/zero/negative/reversed values is executed on the real builder and compared call by call, at solve() and on a run of y'=0 with a reference model of the builder contract (86M histories thorough); all 5040 setter orders must give bit-identical paths; static/dynamic misuse; (b) fault sequences: the derivative fails at call k for EVERY k up to the call count of the faultless run; exactly one Err item carrying the error, None afterwards, collect_vec returns it.", "reference builder contract written out in c06.rs; NaN and wrong-length slices not enumerated", "exhaustive operation-sequence enumeration against a reference model + exhaustive fault-point enumeration", "3/C06", "E2"),
  "C07": (True, "model_checking", "E2 full depth-first search: the function under the root finder is an adversarial environment answering every new abscissa from a small alphabet (memoised, so each path is a genuine continuous function); ALL answer sequences up to the method's termination bound (Brent: evaluation cap) are explored for 6 brackets x tolerances x ITP parameter grid, incl. the end-point answers (same-sign rejections); plus deviation-bounded search around 6 concrete functions up to the full bound, a 14-function catalogue with known roots on all opposite-sign pairs of 16 end points, and invalid arguments.", "evaluation bounds stated in the evidence; depth bounded by the tolerance (cap for Brent)", E2, "3/C07", "E2"),
+ "C08": (True, "exploration", "newton and secant on F(x) = A(x-r) + c N(x-r) for dimension 1-4 x 6 matrices (one singular) x 3 non-linearities x 3 roots x starts (origin, on the root, near along every axis and the diagonal) x tolerances x finite-difference widths x caps (70k systems thorough); polynomial Newton/Muller on 14 root sets from starts inside the contraction region incl. the origin and vertical/skew Muller triples; Steffensen on 10 contractions down to tol 1e-13; callbacks count calls.", "accuracy 8 tol max(1,|r|) + conditioning floor; Ok required only inside the stated convergence region", E1, "3/C08", "E1"),
+ "C14": (True, "exploration", "degree 1-10 polynomials expanded in the harness from 7 families of separated root configurations (incl. x^n - c and (x-a)^n - b whose derivatives vanish at the start of the iteration) x leading coefficients x tolerances down to the evaluation noise: exactly n roots, residuals, bottleneck perfect matching with the true roots, conjugate closure; zeros of Legendre/Hermite/Laguerre polynomials for every admissible index against interlacing-bisection references.", "true roots known by construction; admissible index range computed per family and tolerance", E1, "3/C14", "E1"),
 }
 ALL = ["C%02d" % i for i in range(1, 21)]
 def main():
